@@ -325,6 +325,41 @@ func provesLE(env *IntEnv, E ssa.Value, extra int64, s ssa.Value, b *ssa.BasicBl
 				return "interval", true
 			}
 		}
+		// s = x[lo:hi]: its length is hi - lo; when that difference is a constant or a single value plus a constant
+		// (entry := data[i*stride : (i+1)*stride] has length stride), the interval of that value bounds it
+		if sl, ok := s.(*ssa.Slice); ok && sl.High != nil {
+			lo := polyConst(0)
+			if sl.Low != nil {
+				lo = polyOf(sl.Low, 0)
+			}
+			d := polyAdd(polyOf(sl.High, 0), lo, -1)
+			if d.ok {
+				var lenLo int64 = negInf
+				cst := d.t[""]
+				nonConst := 0
+				var atom ssa.Value
+				for k, c := range d.t {
+					if k == "" || c == 0 {
+						continue
+					}
+					nonConst++
+					if c == 1 && !strings.Contains(k, "*") {
+						atom = d.at[k]
+					} else {
+						atom = nil
+					}
+				}
+				switch {
+				case nonConst == 0:
+					lenLo = cst
+				case nonConst == 1 && atom != nil:
+					lenLo = satAdd(env.At(atom, b).Lo, cst)
+				}
+				if lenLo != negInf && iv.Hi != posInf && satAdd(iv.Hi, extra) <= lenLo {
+					return "interval (length of a re-slice is high - low)", true
+				}
+			}
+		}
 	}
 	// io.Reader contract: n returned by Read(s) / ReadAtLeast(_, s, _) satisfies 0 <= n <= len(s)
 	if ex, ok := E.(*ssa.Extract); ok && ex.Index == 0 && extra == 0 {
